@@ -8,12 +8,33 @@ import (
 	"path/filepath"
 	"sort"
 	"strconv"
+	"strings"
 
 	"verifchk/core"
 	"verifchk/rules"
 )
 
 func main() {
+	if len(os.Args) >= 3 && os.Args[1] == "callers" {
+		prog, err := core.Load("/repo")
+		if err != nil {
+			fmt.Println(err)
+			os.Exit(2)
+		}
+		cg := prog.CallGraph()
+		for _, fn := range prog.ModFuncs {
+			if !strings.Contains(core.FuncKey(fn), os.Args[2]) {
+				continue
+			}
+			fmt.Println("==", core.FuncKey(fn))
+			if n := cg.Nodes[fn]; n != nil {
+				for _, e := range n.In {
+					fmt.Println("   <-", core.FuncKey(e.Caller.Func), prog.Pos(e.Site.Pos()), fmt.Sprintf("%T", e.Site))
+				}
+			}
+		}
+		return
+	}
 	if len(os.Args) < 3 || os.Args[1] != "check" {
 		var ids []string
 		for id := range rules.Registry {
